@@ -117,30 +117,31 @@ def absDiffEq (a b : Float) : Bool :=
   (if a > b then a - b else b - a) ≤ Float.ofBits 0x3CB0000000000000   -- 2^-52
 
 /-- The `for q in p + 1..n - 1` loop (left-light split: move right). Returns the bounds. -/
-def scanRight (pos : Array Nat) (pw : Array Float) (expected : Float) (hi : Nat) :
+def scanRight (pos : Array Nat) (pw : Array Float) (total expected : Float) (hi : Nat) :
     Nat → Nat → Float → Nat → Nat → Nat × Nat
   | 0, _, _, mn, mx => (mn, mx)
   | fuel + 1, q, acc, mn, mx =>
     if q < hi then
       let acc := acc + pw[q]!
-      if absDiffEq acc expected then (pos[q]!, pos[q]!)
+      -- `abs_diff_eq!(pw / total_weight, expected_left_weight / total_weight)` (fix 6dc2c32, defect N6)
+      if absDiffEq (acc / total) (expected / total) then (pos[q]!, pos[q]!)
       else if expected < acc then
         (mn, if pos[q]! < mx then pos[q]! else mx)
-      else if acc < expected then scanRight pos pw expected hi fuel (q + 1) acc pos[q]! mx
-      else scanRight pos pw expected hi fuel (q + 1) acc mn mx
+      else if acc < expected then scanRight pos pw total expected hi fuel (q + 1) acc pos[q]! mx
+      else scanRight pos pw total expected hi fuel (q + 1) acc mn mx
     else (mn, mx)
 
 /-- The `for q in (0..p).rev()` loop (left-heavy split: move left); `q1 = q + 1`. -/
-def scanLeft (pos : Array Nat) (pw : Array Float) (expected : Float) :
+def scanLeft (pos : Array Nat) (pw : Array Float) (total expected : Float) :
     Nat → Float → Nat → Nat → Nat × Nat
   | 0, _, mn, mx => (mn, mx)
   | q + 1, acc, mn, mx =>
     let acc := acc - pw[q + 1]!
-    if absDiffEq acc expected then (pos[q]!, pos[q]!)
+    if absDiffEq (acc / total) (expected / total) then (pos[q]!, pos[q]!)
     else if acc < expected then
       (if mn < pos[q]! then pos[q]! else mn, mx)
-    else if expected < acc then scanLeft pos pw expected q acc mn pos[q]!
-    else scanLeft pos pw expected q acc mn mx
+    else if expected < acc then scanLeft pos pw total expected q acc mn pos[q]!
+    else scanLeft pos pw total expected q acc mn mx
 
 /-- One pass of the `while todo_split_count > 0` loop: the `map` closure for split `p`
 (`left` = its prefix weight).  Returns the new split and whether it was settled now. -/
@@ -155,8 +156,8 @@ def stepSplit (n : Nat) (pos : Array Nat) (pw : Array Float) (total : Float)
     else
       let expected := (p + 1).toFloat * total / n.toFloat
       let (mn, mx) :=
-        if lwr < rwr then scanRight pos pw expected (n - 1) n (p + 1) left s.position s.maxBound
-        else scanLeft pos pw expected p left s.minBound s.position
+        if lwr < rwr then scanRight pos pw total expected (n - 1) n (p + 1) left s.position s.maxBound
+        else scanLeft pos pw total expected p left s.minBound s.position
       let np := avgU64 mn mx
       if s.position = np then ({ s with minBound := mn, maxBound := mx, settled := true }, true)
       else ({ position := np, minBound := mn, maxBound := mx, settled := false }, false)
